@@ -26,13 +26,14 @@ type Op struct {
 	MT     int      `json:"mt,omitempty"`
 	ID     uint64   `json:"id,omitempty"`
 	Seq    int      `json:"seq,omitempty"`
-	Slow   bool     `json:"slow,omitempty"` // join with a 4 KiB receive buffer (a reader that will lag)
-	Fill   int      `json:"fill,omitempty"` // send: bytes of filler derived from (id, sender, seq) after the header
-	NB     bool     `json:"nb,omitempty"`   // send: no waiting afterwards (burst)
-	PX     string   `json:"px,omitempty"`   // join: the token's connection-type claim; "" = session, "(empty)" = the empty string
-	Via    string   `json:"via,omitempty"`  // join: "api" = present the code on the URI the access API returned, else on /session/{topic}
-	Wrap   int      `json:"wrap,omitempty"` // send: 0 plain payload, 1.. wrapped as a stats command (JSON)
-	Size   int      `json:"size,omitempty"` // send: total payload size in bytes (-1 = empty message); 0 = just the header
+	Slow   bool     `json:"slow,omitempty"`   // join with a 4 KiB receive buffer (a reader that will lag)
+	Fill   int      `json:"fill,omitempty"`   // send: bytes of filler derived from (id, sender, seq) after the header
+	NB     bool     `json:"nb,omitempty"`     // send: no waiting afterwards (burst)
+	PX     string   `json:"px,omitempty"`     // join: the token's connection-type claim; "" = session, "(empty)" = the empty string
+	Via    string   `json:"via,omitempty"`    // join: "api" = present the code on the URI the access API returned, else on /session/{topic}
+	Wrap   int      `json:"wrap,omitempty"`   // send: 0 plain payload, 1.. wrapped as a stats command (JSON)
+	Size   int      `json:"size,omitempty"`   // send: total payload size in bytes (-1 = empty message); 0 = just the header
+	Reason bool     `json:"reason,omitempty"` // leave: with a close frame whose reason text is a self-identifying payload (ID, Seq)
 }
 
 func (o Op) prefix() string {
@@ -115,7 +116,7 @@ type Case struct {
 const bufferSize = 128
 
 // the first eight are walked through exhaustively, the last two (look-alikes of write) are added at random
-var pool = []string{"read", "write", "Read", " read", "readwrite", "relay:admin", "host", "", "Write", "write ", "READ", " Write ", "\uff52\uff45\uff41\uff44", "wr\u0456te"}
+var pool = []string{"read", "write", "Read", " read", "readwrite", "relay:admin", "host", "", "Write", "write ", "READ", " Write ", "\uff52\uff45\uff41\uff44", "wr\u0456te", "relay:stats", "relay", "relay:"}
 
 func coqStrs(ss []string) string {
 	xs := make([]string, len(ss))
@@ -213,9 +214,9 @@ func genCase(r *lib.Rng, mask int) []Op {
 		name   uint64
 	}
 	parts := make([]*part, nP)
-	parts[0] = &part{scopes: subset(mask|r.Intn(64)<<8, r)}
+	parts[0] = &part{scopes: subset(mask|r.Intn(512)<<8, r)}
 	for i := 1; i < nP; i++ {
-		m := r.Intn(16384)
+		m := r.Intn(131072)
 		switch r.Intn(4) {
 		case 0:
 			m |= 3 // reader and writer
@@ -236,7 +237,8 @@ func genCase(r *lib.Rng, mask int) []Op {
 	for i, n := 0, r.Range(6, 14); i < n; i++ {
 		p := parts[r.Intn(nP)]
 		if r.Chance(1, 12) {
-			ops = append(ops, Op{K: "leave", N: p.name})
+			nextID++
+			ops = append(ops, Op{K: "leave", N: p.name, TT: tt, ID: nextID, Seq: seq, Reason: r.Bool()})
 			nextName++
 			p.name = nextName
 			ops = append(ops, Op{K: "join", N: p.name, TT: tt, Scopes: p.scopes})
@@ -245,6 +247,15 @@ func genCase(r *lib.Rng, mask int) []Op {
 		seq++
 		nextID++
 		ops = append(ops, sized(r, Op{K: "send", N: p.name, TT: tt, MT: 1 + r.Intn(2), ID: nextID, Seq: seq}))
+	}
+	if r.Chance(1, 2) {
+		// somebody leaves politely, with a close frame that carries a reason text; the others go on
+		p := parts[r.Intn(nP)]
+		nextID++
+		ops = append(ops, Op{K: "leave", N: p.name, TT: tt, ID: nextID, Seq: seq + 3, Reason: true})
+		nextName++
+		p.name = nextName
+		ops = append(ops, Op{K: "join", N: p.name, TT: tt, Scopes: p.scopes})
 	}
 	if r.Chance(1, 3) {
 		// somebody dies in the middle of a message; the others go on
@@ -279,11 +290,11 @@ func genDeferred(r *lib.Rng, mask int) []Op {
 		var sc []string
 		switch {
 		case i == 0 && r.Bool():
-			sc = subset(mask|r.Intn(64)<<8, r)
+			sc = subset(mask|r.Intn(512)<<8, r)
 		case r.Chance(2, 3):
 			sc = append([]string(nil), simple[r.Intn(len(simple))]...)
 		default:
-			sc = subset(r.Intn(16384), r)
+			sc = subset(r.Intn(131072), r)
 		}
 		nextName++
 		parts[i] = &part{scopes: sc, tt: tts[r.Intn(2)], name: nextName}
@@ -296,7 +307,7 @@ func genDeferred(r *lib.Rng, mask int) []Op {
 		if r.Bool() {
 			o.Scopes = append([]string(nil), simple[r.Intn(len(simple))]...)
 		} else {
-			o.Scopes = subset(1+r.Intn(16383), r)
+			o.Scopes = subset(1+r.Intn(131071), r)
 		}
 		return o
 	}
@@ -341,7 +352,8 @@ func genDeferred(r *lib.Rng, mask int) []Op {
 			ops = append(ops, noise())
 		case x == 1:
 			// leave, get a new code, let something else pass, connect again
-			ops = append(ops, Op{K: "leave", N: p.name})
+			nextID++
+			ops = append(ops, Op{K: "leave", N: p.name, TT: p.tt, ID: nextID, Seq: seq, Reason: r.Bool()})
 			nextName++
 			p.name = nextName
 			ops = append(ops, Op{K: "issue", N: p.name, TT: p.tt, Scopes: p.scopes}, noise(), Op{K: "connect", N: p.name, TT: p.tt, Scopes: p.scopes})
@@ -350,6 +362,14 @@ func genDeferred(r *lib.Rng, mask int) []Op {
 			nextID++
 			ops = append(ops, sized(r, Op{K: "send", N: p.name, TT: p.tt, MT: 1 + r.Intn(2), ID: nextID, Seq: seq}))
 		}
+	}
+	if r.Chance(1, 2) {
+		p := parts[r.Intn(nP)]
+		nextID++
+		ops = append(ops, Op{K: "leave", N: p.name, TT: p.tt, ID: nextID, Seq: seq + 3, Reason: true})
+		nextName++
+		p.name = nextName
+		ops = append(ops, Op{K: "issue", N: p.name, TT: p.tt, Scopes: p.scopes}, Op{K: "connect", N: p.name, TT: p.tt, Scopes: p.scopes})
 	}
 	if r.Chance(1, 3) {
 		p := parts[r.Intn(nP)]
@@ -405,6 +425,10 @@ func needlesOf(c *Case) []needle {
 		switch o.K {
 		case "join", "issue":
 			scopes[o.N] = o.Scopes
+		case "leave":
+			if o.Reason && !has(scopes[o.N], "write") {
+				ns = append(ns, needle{o.ID, o.N, []byte(fmt.Sprintf("<%d,%d,", o.ID, o.N))})
+			}
 		case "send", "partial":
 			if has(scopes[o.N], "write") {
 				continue
@@ -656,7 +680,13 @@ func runCase(k *hubkit.Kit, c *Case, res *lib.Result) []*hubkit.Peer {
 			}
 		case "leave":
 			if p := peers[o.N]; p != nil {
-				k.Leave(p)
+				if o.Reason && p.Refused == "" {
+					k.LeaveWithReason(p, hubkit.Payload(o.ID, o.N, o.Seq, o.TT))
+					res.Count("leave:with-reason")
+					time.Sleep(5 * time.Millisecond) // were the reason relayed, it would be on its way now
+				} else {
+					k.Leave(p)
+				}
 			}
 		case "partial":
 			// the connection fails in the middle of a data message (whatever its scopes): nothing of the
